@@ -406,8 +406,8 @@ def _large(draw):
 def subs(tier: str):
     q = tier == "quick"
     out = [
-        Sub("datasets", check, "hypothesis", strategy=lambda: _case(6 if q else 8, 8 if q else 12), examples=50 if q else 4000),
-        Sub("collections", check_collection, "hypothesis", strategy=_collection, examples=12 if q else 1000),
+        Sub("datasets", check, "hypothesis", strategy=lambda: _case(6 if q else 8, 8 if q else 12), examples=120 if q else 4000),
+        Sub("collections", check_collection, "hypothesis", strategy=_collection, examples=30 if q else 1000),
         Sub("grids-beyond-128", check, "hypothesis", strategy=_beyond_128, examples=2 if q else 25),
         Sub("large", check, "hypothesis", strategy=_large, examples=2 if q else 40),
     ]
